@@ -114,6 +114,10 @@ def parse_reply(s: str):
     raise HarnessError(f"unparsable reply from the model server: {s!r}")
 
 
+class LivelockGuard(BaseException):
+    """raised by the server object when the code under test keeps calling it without ever returning"""
+
+
 class LeanServer:
     """The server behind the stub.  Every command is answered by the Lean model; this class only counts client
     calls, records the wire trace, switches the connection off/on (`down`), and keeps the server's clock equal to
@@ -127,6 +131,7 @@ class LeanServer:
         self.failed_calls = 0
         self.ok_calls = 0
         self.now_ms = 0
+        self.max_calls = 0           # >0: refuse to go on after this many calls (a command that never returns)
         self.spin_limit = 0          # >0: let one tick pass every `spin_limit` calls made at the same virtual instant (busy-wait loops)
         self._spin = 0
         self._spin_t = None
@@ -157,6 +162,8 @@ class LeanServer:
 
     async def execute(self, client, args):
         toks = wire_tokens(args)
+        if self.max_calls and self.calls >= self.max_calls:
+            raise LivelockGuard(f"more than {self.max_calls} client calls without returning")
         n = self.calls
         self.calls += 1
         self.trace.append(",".join(toks))
